@@ -319,6 +319,32 @@ theorem acquireLoop_path {c : Cfg} (hd : Dom c) (tgt : Bytes) :
             (by simp at hcount ⊢; omega)]
           simp [expectedLog, stepEntries, hpar, Nat.add_assoc, Nat.add_comm]
 
+/-- one more unit of fuel changes nothing once the fuel exceeds what the Go counter allows -/
+theorem acquireLoop_fuel (c : Cfg) (tgt : Bytes) : ∀ (fuel count : Nat) (s : Sess),
+    2 * c.L.length + 1 - count < fuel →
+    acquireLoop c tgt (fuel + 1) count s = acquireLoop c tgt fuel count s := by
+  intro fuel
+  induction fuel with
+  | zero => intro count s h; omega
+  | succ fuel ih =>
+    intro count s h
+    rw [acquireLoop.eq_def c tgt (fuel + 1 + 1), acquireLoop.eq_def c tgt (fuel + 1)]
+    simp only
+    split
+    · rfl
+    · split
+      · rfl
+      · split
+        · rfl
+        · split
+          · rfl
+          · exact ih _ _ (by omega)
+      · split
+        · rfl
+        · split
+          · rfl
+          · exact ih _ _ (by omega)
+
 /-! ## payload lines -/
 
 theorem sendLines_payload (c : Cfg) : ∀ (ls : List Bytes) (s : Sess), s.dev.awaiting = none →
